@@ -189,6 +189,33 @@ def wl_ctor(ctx, rng, case):
     case.nontrivial = True
 
 
+def wl_many_clears(ctx, rng, case):
+    """LONG lives: an array that is written once and then cleared hundreds or tens of thousands of times (a scratch bitmap cleared per
+    request) must stay all zero - checked around every power-of-two number of clears - and must still take writes afterwards"""
+    from probables.utilities import Bitarray
+
+    n = [13, 100, 1000, 8, 513, 4096][case.index % 6]
+    ba = Bitarray(n)
+    model = [0] * n
+    for idx in rng.sample(range(n), min(n, 5)) + [0, n - 1]:
+        ba.set_bit(idx)
+    total = 70000 if case.index % 6 in (0, 3) else 1100
+    marks = {c + d for c in (1, 2, 127, 128, 255, 256, 511, 512, 1023, 1024, 32767, 32768, 65535, 65536) for d in (-1, 0, 1)}
+    case.desc = {"size": n, "clears": total, "kind": "many clears"}
+    for c in range(1, total + 1):
+        ba.clear()
+        if c in marks or c == total:
+            compare(ctx, ba, model, f"after {c} clears of size {n}")
+            ctx.count("many_clears_marks_compared")
+    for idx in (0, n // 2, n - 1):
+        apply(ctx, ba, model, "set_bit", idx)
+        compare(ctx, ba, model, f"after set_bit({idx}) following {total} clears of size {n}")
+    apply(ctx, ba, model, "clear", None)
+    compare(ctx, ba, model, f"after one more clear of size {n}")
+    ctx.maximum("most_clears_of_one_array", total)
+    case.nontrivial = True
+
+
 PROP = Prop(
     "C20",
     "exploration",
@@ -201,6 +228,7 @@ PROP = Prop(
         Workload("exhaustive", wl_exhaustive, quick=20, thorough=48, exhaustive=True),
         Workload("ctor", wl_ctor, quick=9, thorough=9),
         Workload("random", wl_random, quick=400, thorough=300000),
+        Workload("many_clears", wl_many_clears, quick=6, thorough=24),
     ],
     assumptions=["values passed to []= are ints/bools, as the signature says",
                  "any of IndexError/ValueError/TypeError counts as 'rejected with an error'"],
